@@ -485,6 +485,10 @@ class Sym:
     # -- environment updates while walking a path
     def declare(self, v):
         init = v.get("init")
+        if "tid" in v and not v.get("ref") and not v.get("ptr"):
+            # an object of class type has identity: it is not copy-propagated
+            self.env[v["n"]] = "L:" + v["n"]
+            return
         if init is None:
             self.env[v["n"]] = "L:" + v["n"] if not v.get("ref") else "?"
             return
